@@ -550,6 +550,7 @@ pub fn check_cmd(prop: &str, tier: &str) -> i32 {
         let (scn, tape, v, hash) = shrink(&f.scn, &f.tape, prop, &f.v.rule);
         if v.prop == "??" {
             eprintln!("harness error: violation {}.{} at run {} did not reproduce in-process (nondeterminism)", prop, f.v.rule, f.idx);
+            eprintln!("  detail: {}\n  scenario: {}", f.v.detail, serde_json::to_string(&f.scn).unwrap_or_default());
             return 2;
         }
         let rf = ReplayFile {
